@@ -94,6 +94,9 @@ def enc(o: t.Any) -> t.Any:
         return {'$map': [[enc(k), enc(v)] for (k, v) in o.items()]}
     if isinstance(o, types.MappingProxyType):
         return {'$mp': [[enc(k), enc(v)] for (k, v) in o.items()]}
+    if isinstance(o, collections.defaultdict):
+        fac = {None: None, list: 'list', int: 'int', dict: 'dict', str: 'str'}.get(o.default_factory, 'list')
+        return {'$dd': [fac, [[enc(k), enc(v)] for (k, v) in o.items()]]}
     if isinstance(o, collections.OrderedDict):
         return {'$od': [[enc(k), enc(v)] for (k, v) in o.items()]}
     if isinstance(o, dict):
@@ -130,6 +133,9 @@ def dec(j: t.Any) -> t.Any:
             return MyMap((dec(a), dec(b)) for (a, b) in v)
         if k == '$mp':
             return types.MappingProxyType({dec(a): dec(b) for (a, b) in v})
+        if k == '$dd':
+            fac = {None: None, 'list': list, 'int': int, 'dict': dict, 'str': str}[v[0]]
+            return collections.defaultdict(fac, ((dec(a), dec(b)) for (a, b) in v[1]))
         if k == '$od':
             return collections.OrderedDict((dec(a), dec(b)) for (a, b) in v)
         if k == '$d':
